@@ -270,6 +270,46 @@ def _flval(ctx, n, only=None):
     ctx.extra["flval_results"] = dict(sorted(hist.items()))
 
 
+def _state(ctx, n):
+    """white-box tie of the evaluator STATE between calls: after every Evaluate of a history (accepted, rejected by parse
+    at any position, failed at evaluation time) the two stacks of the real reused Evaluator (go/overlay/c09_stacks.go)
+    against the model's Eval.St (after a rejected parse: Eval.leftoverOn).  The property does not constrain the internal
+    state — only the answers, which the struct stream compares — so a difference here is recorded, not reported: it
+    means the state theorems (reuse_after_any_call, state_after_call, reset_is_needed_after_rejection) speak about a
+    state the working tree no longer has, while reuse = fresh itself stays checked by `reuse-mismatch`."""
+    lines = ctx.gen("state", ctx.seed * 2750159 + 3, n[ctx.tier])
+    if not any(l.startswith("d ") for l in lines):
+        ctx.extra["state_dump"] = "not observed: the white-box accessor did not compile against the working tree (black-box build)"
+        return
+    impl = ctx.run_impl("state", lines)
+    model = ctx.run_model("drv_c09", lines)
+    if impl is None or model is None:
+        ctx.extra["state_dump"] = "not observed: stream could not be run"
+        return
+    compared = nonempty_after_err = differ = 0
+    first = None
+    prev = ""
+    for l, a, b in zip(lines, impl, model):
+        if l.startswith("d "):
+            compared += 1
+            ctx.evals += 1
+            ctx.kinds["state:d"] = ctx.kinds.get("state:d", 0) + 1
+            if prev == "err" and b != "D  | ":
+                nonempty_after_err += 1
+            if a != b:
+                differ += 1
+                first = first or {"op": l, "impl": a[:300], "model": b[:300]}
+            else:
+                ctx.distinct.add(hash(("state", l, b)))
+        prev = b
+    ctx.rules.append("area state (white-box, advisory): the operand and operator stacks the real reused Evaluator holds after "
+                     "every call of a history vs the model's evaluator state (Eval.St; Eval.leftoverOn after a rejected parse)")
+    ctx.extra["state_dump"] = {"dumps_compared": compared, "after_rejected_parse_with_pending_entries": nonempty_after_err,
+                               "differ": differ}
+    if first:
+        ctx.extra["state_dump_first_difference"] = first
+
+
 def run(ctx):
     ctx.modelled += [
         "symbolic tie (struct): the harness copies Symbol/Precedence/presence of Evaluate and EvaluateUnary from "
@@ -321,7 +361,7 @@ def run(ctx):
                         "the model's nesting budget (the Go code has none) is len*33+1 in the driver: enough for resolver "
                         "answers up to 32 bytes longer than `$name`"]
     ctx.lean(props=["Props.C09"], drivers=["drv_c09"])
-    ctx.harness("./cmd/c09")
+    ctx.harness("./cmd/c09", overlay={"eval/verif_c09_stacks.go": "c09_stacks.go"})
     if ctx.replay:
         rep = json.load(open(ctx.replay))
         if rep.get("area") == "struct":
@@ -347,3 +387,4 @@ def run(ctx):
     _val(ctx, {"quick": 30000, "thorough": 1000000})
     _fxval(ctx, {"quick": 120000, "thorough": 4000000})
     _flval(ctx, {"quick": 100000, "thorough": 2000000})
+    _state(ctx, {"quick": 30000, "thorough": 600000})
